@@ -1068,7 +1068,14 @@ def mpc_agm(a, b, prec, rnd=round_fast):
     while 1:
         a1 = mpc_shift(mpc_add(a, b, wp), -1)
         b1 = mpc_sqrt(mpc_mul(a, b, wp), wp)
+        # Take the square root that is closer to the arithmetic mean: with
+        # the other one, agm(a, a) for Re(a) < 0 goes through (a, -a) to
+        # (0, .) and then halves forever
+        if mpf_gt(mpc_abs(mpc_sub(a1, b1, 10), 10), mpc_abs(mpc_add(a1, b1, 10), 10)):
+            b1 = mpc_neg(b1)
         a, b = a1, b1
+        if mpc_zero in (a, b):
+            return fzero, fzero
         size = mpf_min_max([mpc_abs(a,10), mpc_abs(b,10)])[1]
         err = mpc_abs(mpc_sub(a, b, 10), 10)
         if size == fzero or mpf_lt(err, mpf_mul(eps, size)):
